@@ -1,18 +1,24 @@
 #!/bin/bash
 # regenerate /verif/evidence/*.json from the registered quick commands on the CURRENT (clean) /repo and validate them
+# usage: regen_evidence.sh [parallelism, default 4]
 cd /verif || exit 1
 git -C /repo diff --quiet || { echo "/repo has uncommitted changes"; exit 3; }
 unset VERIF_EVIDENCE_DIR VERIF_REPO
-FAIL=0
-for P in $(python3-vt -c "import json; print(' '.join(c['property_id'] for c in json.load(open('MANIFEST.json'))['checks']))"); do
+P=${1:-4}
+mkdir -p /tmp/wt
+IDS=$(python3-vt -c "import json; print(' '.join(c['property_id'] for c in json.load(open('MANIFEST.json'))['checks']))")
+one() {
   s=$(date +%s)
-  bin/check $P --tier quick > /tmp/wt/regen_$P.out 2> /tmp/wt/regen_$P.err
+  bin/check $1 --tier quick > /tmp/wt/regen_$1.out 2> /tmp/wt/regen_$1.err
   rc=$?
   e=$(date +%s)
-  nv=$(grep -c '^VIOLATION' /tmp/wt/regen_$P.out)
-  echo "$P exit=$rc violations=$nv $((e-s))s  $(tail -1 /tmp/wt/regen_$P.err | cut -c1-150)"
-  [ "$rc" = 0 ] || FAIL=1
-done
+  nv=$(grep -c '^VIOLATION' /tmp/wt/regen_$1.out)
+  echo "$1 exit=$rc violations=$nv $((e-s))s  $(tail -1 /tmp/wt/regen_$1.err | cut -c1-150)"
+  [ "$rc" = 0 ]
+}
+export -f one
+FAIL=0
+echo $IDS | tr ' ' '\n' | xargs -P $P -I{} bash -c 'one {}' || FAIL=1
 python3-vt - <<'PY'
 import json, jsonschema, glob
 sch = json.load(open('/root/.vp/EVIDENCE.schema.json'))
